@@ -66,6 +66,7 @@ func assetTol(pre, post *Snap, denom string) *big.Rat {
 	if as, ok := post.Assets[denom]; ok {
 		b = as.TotalTokens.BigInt()
 	}
+	margin := new(big.Rat)
 	t := new(big.Rat).SetInt(maxInt(new(big.Int).Abs(a), new(big.Int).Abs(b)))
 	t.Mul(t, big.NewRat(20, 1_000_000_000_000_000_000))
 	amp := amplification(pre, denom)
@@ -74,6 +75,21 @@ func assetTol(pre, post *Snap, denom string) *big.Rat {
 	}
 	t.Mul(t, amp)
 	t.Add(t, big.NewRat(2, 1))
+	// the module's documented rounding margin is 0.01 SHARE (a remainder below it counts as a full
+	// withdrawal, the reported balance adds 0.01 before flooring): where a slash elsewhere made a
+	// delegator share worth many tokens that margin is 0.01 x tokens-per-share
+	for _, s := range []*Snap{pre, post} {
+		for i := range s.Vals {
+			if tds, ok := s.Vals[i].DelShares[denom]; ok && tds.IsPositive() {
+				if tps := new(big.Rat).Quo(s.ValTokens(i, denom), decRat(tds)); tps.Cmp(big.NewRat(1, 1)) > 0 {
+					if m := new(big.Rat).Mul(tps, big.NewRat(1, 100)); m.Cmp(margin) > 0 {
+						margin = m
+					}
+				}
+			}
+		}
+	}
+	t.Add(t, margin)
 	// rounding dust in the share total (listed finding F-C03: the validators' shares do not sum
 	// exactly to the asset's share total) is an absolute number of shares; once the asset has
 	// shrunk, each of them is worth TotalTokens / share total tokens. The observed mismatch, valued
